@@ -28,21 +28,31 @@ fn main() {
     let rounds = cfg.n(400, 20_000);
     let mut rng = cfg.rng(1200);
     prelude::SALT.store((cfg.seed << 20) ^ ((cfg.shard as u64) << 52), std::sync::atomic::Ordering::Relaxed);
-    for _ in 0..rounds {
-        match name {
-            #[cfg(feature = "c12")]
-            "c12" => gen::run_c12(&mut rep, &mut rng),
-            #[cfg(feature = "c05")]
-            "c05" => gen::run_c05(&mut rep, &mut rng),
-            #[cfg(feature = "c16")]
-            "c16" => gen::run_c16(&mut rep, &mut rng),
-            _ => {
-                eprintln!("unknown monitor {name}");
-                std::process::exit(2);
+    // safety net for a panic that escapes the drivers (they catch per call): inside /repo => violation
+    if let Err(msg) = vnet::catch(std::panic::AssertUnwindSafe(|| {
+        for _ in 0..rounds {
+            match name {
+                #[cfg(feature = "c12")]
+                "c12" => gen::run_c12(&mut rep, &mut rng),
+                #[cfg(feature = "c05")]
+                "c05" => gen::run_c05(&mut rep, &mut rng),
+                #[cfg(feature = "c16")]
+                "c16" => gen::run_c16(&mut rep, &mut rng),
+                _ => {
+                    eprintln!("unknown monitor {name}");
+                    std::process::exit(2);
+                }
+            }
+            if name == "c16" {
+                break; // nothing random in C16: the descriptions are constants
             }
         }
-        if name == "c16" {
-            break; // nothing random in C16: the descriptions are constants
+    })) {
+        let prop = name.to_uppercase();
+        if msg.contains("[at /repo/") {
+            rep.violation(&format!("{prop}/panic-in-zlink-escaped-the-monitor"), msg, serde_json::json!({"monitor": name}));
+        } else {
+            rep.inconclusive.push(format!("the drivers panicked: {msg}"));
         }
     }
     rep.add("corpus_proxy_traits", gen::N_C12 as u64);
